@@ -10,7 +10,7 @@ flipped infinity sign, swapped begin/end, dropped negation ...):
 Writes /verif/evidence/mutation.json: per mutant the outcome, and the list of suite-surviving mutants that no
 check reports (candidates for equivalent mutants or blind spots; they are triaged by hand in DESIGN.md 8.4).
 
-usage: mutants.py [--jobs J] [--scale S] [--max N] [--only substring] [--stride K]
+usage: mutants.py [--jobs J] [--scale S] [--max N] [--only substring] [--stride K] [--recheck mutation.json]
 """
 import os
 import re
@@ -167,6 +167,12 @@ def main():
     all_checks = [c['property_id'] for c in manifest['checks']]
     ms = [m for m in sites() if only in m['file']]
     ms = ms[::stride]
+    recheck = arg('--recheck', '')
+    if recheck:
+        # second pass over the suite-surviving mutants that no mapped check reported: run EVERY check on them
+        want = set((r['file'], r['line'], r['op']) for r in json.load(open(recheck))['not_reported'])
+        ms = [m for m in sites() if (m['file'], m['line'], m['op']) in want]
+        os.environ['MUT_ALL_CHECKS'] = '1'
     if mx:
         ms = ms[:mx]
     print('%d mutation sites' % len(ms))
@@ -191,7 +197,7 @@ def main():
            'survived_suite': summ.get('caught', 0) + summ.get('not-reported', 0),
            'not_reported': [r for r in results if r['outcome'] == 'not-reported'],
            'all': results}
-    with open(os.path.join(os.environ.get('MUT_OUT_DIR', os.path.join(V, 'evidence')), 'mutation.json'), 'w') as f:
+    with open(os.path.join(os.environ.get('MUT_OUT_DIR', os.path.join(V, 'evidence')), 'mutation_recheck.json' if recheck else 'mutation.json'), 'w') as f:
         json.dump(out, f, indent=1, sort_keys=True)
     print('SUMMARY', summ, 'caught_by_check', by_check, 'wall %.0fs' % (time.time() - t0))
 
